@@ -61,6 +61,8 @@ pub fn intvec_case<T: Elem>(cx: &mut Ctx, vals: &[T], shape: &str, ctors: &[usiz
             Err(p) => { obs.push("[(-1)]%Z".into()); cx.sum.fail(&cell, class, cj.clone(), &format!("constructor panicked: {}", p)); }
             Ok(Err(_)) => { obs.push("[1]%Z".into()); cx.sum.dist("intvec_build_refused"); }
             Ok(Ok(iv)) => {
+                // every third vector is read through a clone whose original is gone (Clone copies strategy, data and index)
+                let iv = if (n + ctor) % 3 == 0 { cx.sum.dist("intvec_read_through_clone"); let c = iv.clone(); drop(iv); c } else { iv };
                 let rr = guarded(|| {
                     let got: Vec<Option<T>> = idx.iter().map(|&i| iv.get(i)).collect();
                     let past: Vec<Option<T>> = past_idx.iter().map(|&i| iv.get(i)).collect();
@@ -182,8 +184,47 @@ pub fn tight_tail_case<T: Elem>(cx: &mut Ctx, r: &mut Rng, coq: u64) {
     intvec_case::<T>(cx, &vals, "tight_tail", &[0, 2], coq, r);
 }
 
+/// The unique minimum / maximum of the input at the positions where the chunked range scans end (multiples of 8 and 16, the 128-element
+/// switch of analyze_range_bulk_optimized, the first and the last elements): a scan that drops a remainder takes too narrow a width.
+pub fn minmax_position_family<T: Elem>(cx: &mut Ctx, r: &mut Rng) {
+    let lo = T::lo(); let hi = T::hi();
+    for &n in &[5usize, 8, 9, 16, 17, 33, 64, 65, 127, 128, 129, 130, 144, 145, 257, 1025, 2049] {
+        let mut pos: Vec<usize> = vec![0, 1, n - 1, n - 2, ((n / 8) * 8).min(n - 1), ((n / 16) * 16).min(n - 1), ((n / 8) * 8).saturating_sub(1), 127usize.min(n - 1), 128usize.min(n - 1)]; pos.sort(); pos.dedup();
+        for &p in &pos { for up in [true, false] {
+            let mid: i128 = (lo + hi) / 2 + (r.below(5) as i128);
+            let k = r.range(3, T::BITS as u64 - 2) as u32;
+            let mut v: Vec<i128> = (0..n).map(|_| mid + r.below(4) as i128).collect();
+            v[p] = if up { (mid + (1i128 << k)).min(hi) } else { (mid - (1i128 << k)).max(lo) };
+            let vals: Vec<T> = v.into_iter().map(T::from_i128).collect();
+            intvec_case::<T>(cx, &vals, "minmax_position", &[0, 2], 0, r);
+        } }
+    }
+}
+
+/// The sizes at which from_slice leaves the small-dataset heuristic for the full analysis: more than 10000 elements AND more than
+/// 16 KiB of input (17 * 1024 bytes when truncated to KiB), i.e. 17408 elements of one byte, 10001 elements of the wider types.
+pub fn analysis_threshold_family<T: Elem>(cx: &mut Ctx, r: &mut Rng) {
+    let thr = if T::BITS == 8 { 17 * 1024 } else { 10001 };
+    for n in [thr - 1, thr, thr + 1] { for shape in [9u64, 5, 7, 2] {
+        let (vals, _) = gen_vals::<T>(r, n, shape);
+        intvec_case::<T>(cx, &vals, "analysis_threshold", &[0, 2], 0, r);
+    } }
+}
+
+/// IntVec::new() / Default: an empty vector
+pub fn empty_constructors<T: Elem>(cx: &mut Ctx) {
+    let cell = format!("IntVec<{}>/from_slice", T::NAME);
+    cx.sum.eval(&cell, &format!("{} new/default", cell), false);
+    for (k, iv) in [IntVec::<T>::new(), IntVec::<T>::default(), IntVec::<T>::new().clone()].iter().enumerate() {
+        if iv.len() != 0 || !iv.is_empty() || iv.get(0).is_some() || iv.get(usize::MAX).is_some() {
+            cx.sum.fail(&cell, None, json!({"cell": "intvec", "type": T::NAME, "ctor": 0, "values": []}), &format!("empty constructor #{}: len {} get(0) {:?}", k, iv.len(), iv.get(0)));
+        }
+    }
+}
+
 /// Enumerated: every sequence of length <= 4 over {0, 1, MAX-1, MAX, MIN} of the type.
 pub fn enum_small<T: Elem>(cx: &mut Ctx, r: &mut Rng) {
+    empty_constructors::<T>(cx);
     let lo = T::lo(); let hi = T::hi();
     let mut alpha: Vec<i128> = vec![0, 1, hi - 1, hi, lo]; alpha.sort(); alpha.dedup();
     let a = alpha.len();
